@@ -34,6 +34,9 @@ pub fn pair_scn(tier: &str, stable: Option<u64>) -> PairScn {
             }
         }
     }
+    // reserves on the scale of 18-decimals assets: single protocol and burn charges above 2^64 base units
+    roots.push(PairRoot { label: "NN/fees0/preswaps=true/1e24".into(), kinds: Kinds::NN, decimals: [18, 18], fees: PFEES[0], first: [10u128.pow(24), 10u128.pow(24)], pre_swaps: true });
+    roots.push(PairRoot { label: "NC/fees0/preswaps=true/1e24".into(), kinds: Kinds::NC, decimals: [18, 18], fees: PFEES[0], first: [10u128.pow(24), 10u128.pow(24)], pre_swaps: true });
     // a pool of two token-factory denoms sharing their subdenom (constant product only)
     if stable.is_none() {
         roots.push(PairRoot { label: "FF/fees0/preswaps=true".into(), kinds: Kinds::FF, decimals: [6, 6], fees: PFEES[0], first: [10u128.pow(12), 10u128.pow(12)], pre_swaps: true });
@@ -52,6 +55,10 @@ pub fn vault_scn(tier: &str) -> VaultScn {
                 roots.push(VaultRoot { label: format!("cw20={}/fees{}/preloan={}", cw20, fi, pre), cw20, fees: *f, first: 10u128.pow(12), pre_loan: pre });
             }
         }
+    }
+    // a vault on the scale of an 18-decimals asset
+    for cw20 in [false, true] {
+        roots.push(VaultRoot { label: format!("cw20={}/fees0/preloan=true/1e24", cw20), cw20, fees: PFEES[0], first: 10u128.pow(24), pre_loan: true });
     }
     VaultScn { property: "C07".into(), roots, fee_alphabet: vec![PFEES[1], PFEES[2], PFEES[3]], probe_share: false }
 }
